@@ -1,6 +1,7 @@
 From Coq Require Import List NArith Bool.
 From V.gen Require CapsTables.
 From V.Mgr Require Import DialShape Model Caps CapsExt Limits LimitsProofs PeerTable PeerTableProofs.
+From V.Mgr Require Ledger LedgerInv CapsLedger.
 From V.C06 Require Tables TcpReject Compose08.
 Import ListNotations.
 Open Scope N_scope.
@@ -132,6 +133,15 @@ Check (C06_reject_reserves_nothing :
   (forall d ts, state_of m p = Opening d ts -> forallb (installed L) ts = true) ->
   In (CallReject c t) (snd (do_established L m p c t lst f)) ->
   ins (fst (do_established L m p c t lst f)) = ins m /\ outs (fst (do_established L m p c t lst f)) = outs m).
+Check (C06_decision_reachable :
+  forall L m g p c t (lst f : bool),
+  LedgerInv.Reach L m g -> LedgerInv.feas L m g (TrEstablished p c t lst f) ->
+  let os := snd (do_established L m p c t lst f) in
+  let ok := snd (st_on_established (state_of m p) c) in
+  (In (CallAccept c t) os <-> dir_full L m lst = false /\ ok = true) /\
+  (In (CallReject c t) os <-> dir_full L m lst = true \/ ok = false) /\
+  (In (CallReject c t) os ->
+   ins (fst (do_established L m p c t lst f)) = ins m /\ outs (fst (do_established L m p c t lst f)) = outs m)).
 Check (C06_not_connected_accepted :
   forall L m p c t (lst f : bool),
   (forall q, lookup c (pending m) = Some q -> q = p) ->
